@@ -38,8 +38,10 @@ import Pog.Lemmas.ParserFaithful
                                                    non-empty / class-cased / distinct, keys non-empty /
                                                    distinct, acyclic references, longest chain below the depth
                                                    limit and the fuel ⇒ no error, every name faithful.
-  Missing between `parse_faithful_partial` and the target fragment ("acyclic, no heuristic names, depth ≤
-  max"): arrays, maps, inline objects, enums and allOf/oneOf/anyOf as property or top-level nodes.  The
+  `parse_faithful_partial2` (Pog/Props/C02b.lean, proofs in Pog/Lemmas/ParserFaithful2.lean) extends the fragment to `Simple2`:
+  properties that are arrays or maps of a primitive / of a `$ref`, and top-level arrays and primitive aliases.
+  Still missing between `parse_faithful_partial2` and the target fragment ("acyclic, no heuristic names, depth ≤
+  max"): inline objects with properties, nested arrays, enums and allOf/oneOf/anyOf as property or top-level nodes.  The
   no-prefix / no-`Item` / no-`Property` side conditions turned out to be unnecessary WITHOUT cycles (the
   heuristics only fire on a detected cycle); what IS needed is class-cased names (else the registry key
   differs from the name the tracker knows, and every second reference re-parses the schema).
@@ -51,6 +53,8 @@ import Pog.Lemmas.ParserFaithful
     union_members_nodup_and_cover          anyOf/oneOf: one member -> that member; otherwise Union of the members' types, each part
                                            represented, no duplicates, first-occurrence document order (no unordered container)
 -/
+-- MODULE Pog.Props.C02b
+-- INDEX Pog.C02b: simple_imp_simple2, parse_faithful_partial2, inFragment2_sound, invDecls_simple2, simple2_strict, parse_faithful_map_ctx_counterexample, parse_faithful_map_depth_counterexample
 -- INDEX Pog.ResolveProps: resolve_optional_iff_not_required, union_members_nodup_and_cover, dispatch_union
 /-
   C02 through the two post-parse passes and the model-kind decision (Pog/Model/Extract.lean mirrors
